@@ -86,6 +86,8 @@ def _vanishing_process_file(self, *args, **kwargs):
     filename = next((a for a in list(args) + list(kwargs.values()) if isinstance(a, _P)), None)
     if filename is not None and str(filename).endswith(_os.environ["VERIF_BAD_FILE"]) and _os.path.exists(filename):
         _os.unlink(filename)
+        with open(_os.environ["VERIF_STRUCK_MARK"], "w") as _m:       # outside the target: the fault point was reached
+            _m.write("deleted")
     return _orig_process_file(self, *args, **kwargs)
 _bc.BaseCodemod._process_file = _vanishing_process_file
 '''
@@ -105,7 +107,13 @@ def run_cli_with_fault(R, root, pair, kind, bad):
     if kind == "transform_raises":
         env_preload = f"import os\nos.environ['VERIF_BAD_FILE'] = {bad!r}\n" + PRELOAD_RAISE
     elif kind == "deleted_after_listing":
-        env_preload = f"import os\nos.environ['VERIF_BAD_FILE'] = {bad!r}\n" + PRELOAD_DELETE
+        mark = root.parent / (root.name + ".struck")
+        env_preload = f"import os\nos.environ['VERIF_BAD_FILE'] = {bad!r}\nos.environ['VERIF_STRUCK_MARK'] = {str(mark)!r}\n" + PRELOAD_DELETE
+        r = R.run(root, list(pair), sonar_args(root, pair), preload=env_preload)
+        # the file vanishes when the first codemod that SELECTED it starts processing it; a file no codemod of the run selects
+        # (a SAST-driven pair and a file without findings) is never reached: then there is no fault in this run
+        r["struck"] = mark.exists()
+        return r
     return R.run(root, list(pair), sonar_args(root, pair), preload=env_preload)
 
 
@@ -213,7 +221,12 @@ def compare(ctx, pt, faulty, ref, root_f, root_r, tree_f, tree_r):
     rows_f, rows_r = rc.rows_of_report(faulty["report"], root_f), rc.rows_of_report(ref["report"], root_r)
     original_bad = files[bad].encode() if kind not in CONTENT_FAULTS else fault_content(kind, files, bad)
     # the bad file itself
-    if kind == "deleted_after_listing":
+    struck = kind != "deleted_after_listing" or faulty.get("struck", True)
+    if kind == "deleted_after_listing" and not struck:
+        ctx.count("fault_not_reached:deleted_after_listing")
+        if tree_f.get(bad) != files[bad].encode():
+            viol("kf_c10_bad_file_touched", f"no codemod selected the file, yet its bytes changed: {tree_f.get(bad)!r}")
+    elif kind == "deleted_after_listing":
         if bad in tree_f:
             viol("kf_c10_bad_file_recreated", "the vanished file exists again after the run")
     elif tree_f.get(bad) != original_bad:
@@ -248,16 +261,18 @@ def compare(ctx, pt, faulty, ref, root_f, root_r, tree_f, tree_r):
             viol("kf_c10_findings_not_unfixed", f"{rf['codemod']}: the bad file has {n_findings} finding(s) but unfixedFindings lists {uf_bad}")
         if kind not in UNPROCESSABLE and uf_bad and det != "DSast":
             viol("kf_c10_spurious_failure", f"{rf['codemod']} reports unfixed findings for a processable file: {uf_bad}")
+        if not struck:
+            selected = False          # the fault point was never reached: nothing to list
         if kind in UNPROCESSABLE and selected and bad not in rf["failed"]:
             viol("kf_c10_failure_not_listed", f"{rf['codemod']} selected the bad file but does not list it in failedFiles")
-        if kind not in UNPROCESSABLE and bad in rf["failed"]:
+        if (kind not in UNPROCESSABLE or not struck) and bad in rf["failed"]:
             viol("kf_c10_spurious_failure", f"{rf['codemod']} lists a processable file ({kind}) as failed")
         if bad in rf["changed"]:
             viol("kf_c10_bad_file_changed", f"{rf['codemod']} reports a change set for the bad file")
     return ok, rows_f, rows_r
 
 
-def model_term(pt, rows_f, rows_r, tree_f, tree_r, rc_status):
+def model_term(pt, rows_f, rows_r, tree_f, tree_r, rc_status, struck=True):
     files, pair, kind, bad = pt
     A = rc.Abstr()
     names = rc.py_files(files)
@@ -302,8 +317,8 @@ def model_term(pt, rows_f, rows_r, tree_f, tree_r, rc_status):
     hx_fs = []
     for p, c in files.items():
         if p == bad:
-            if kind == "deleted_after_listing":
-                continue
+            if kind == "deleted_after_listing" and struck:
+                continue            # (when the fault point was never reached the file is simply there, unselected)
             hx_fs.append((A.path(p), badc(bad_content)))
         else:
             hx_fs.append((A.path(p), A.content(c)))
@@ -451,7 +466,7 @@ def run(ctx: core.Ctx):
         ctx.case({"fault": kind, "bad_file": bad, "pair": list(pair), "files": sorted(files),
                   "failed": [x["failed"] for x in rows_f] if rows_f else None}, nontrivial_key=nontrivial, sample=(kind == "transform_raises"))
         if rows_f is not None:
-            t = model_term(pt, rows_f, rows_r, tree_f, ref["tree"], r["rc"])
+            t = model_term(pt, rows_f, rows_r, tree_f, ref["tree"], r["rc"], struck=r.get("struck", True))
             if t is None:
                 ctx.count("model_skipped_same_file_two_codemods")
             else:
